@@ -1114,7 +1114,7 @@ Definition ulid_keys_ok {A} (rows : list (bytes * A)) : bool :=
   forallb (fun r => match ulid_parse (fst r) with Some _ => true | None => false end) rows.
 
 Theorem paging_exact_changes_mem {A} (rows : list (bytes * A)) ps ty :
-  strictly_sorted (map (fun r => norm_key ulid_parse (fst r)) rows) = true ->
+  changes_sorted_by_ulid rows = true ->
   ulid_keys_ok rows = true -> keys_nonempty rows = true -> keys_no_pipe rows = true ->
   exists pages, follow_changes (S (length rows)) (changes_mem rows ps ty) [] = (pages, EndMarker)
                 /\ pages_items pages = map snd rows
@@ -1547,3 +1547,26 @@ Qed.
 
 Definition crows3 : list (bytes * N) :=
   [([48; 49; 65], 1); ([48; 49; 66], 2); ([48; 49; 67], 3)].
+
+(* the role of the lock in memory.Write: a two-entry log whose second entry carries the OLDER ulid
+   (writer A drew its timestamp, then writer B committed first) loses that entry under page size 1,
+   and with three entries and page size 2 an entry comes back twice *)
+Definition ulid_a : bytes := [48;49;75;53;90;56;88;57;71;48;48;48;48;48;48;48;48;48;48;48;48;48;48;48;48;49].
+Definition ulid_b : bytes := [48;49;75;53;90;56;88;57;71;49;48;48;48;48;48;48;48;48;48;48;48;48;48;48;48;48].
+Definition ulid_c : bytes := [48;49;75;53;90;56;88;57;71;50;48;48;48;48;48;48;48;48;48;48;48;48;48;48;48;48].
+
+Theorem paging_changes_unsorted_refuted_witness :
+  (exists rows : list (bytes * N),
+      changes_sorted_by_ulid rows = false /\ ulid_keys_ok rows = true
+      /\ map snd rows = [2; 1]
+      /\ follow_changes 3 (changes_mem rows 1 []) []
+         = ([([2], ulid_b ++ [124]); ([], ulid_b ++ [124])], EndMarker))
+  /\ (exists rows : list (bytes * N),
+      changes_sorted_by_ulid rows = false
+      /\ map snd rows = [2; 1; 3]
+      /\ pages_items (fst (follow_changes 4 (changes_mem rows 2 []) [])) = [2; 1; 2; 3]).
+Proof.
+  split.
+  - exists [(ulid_b, 2); (ulid_a, 1)]. vm_compute. repeat split; reflexivity.
+  - exists [(ulid_b, 2); (ulid_a, 1); (ulid_c, 3)]. vm_compute. repeat split; reflexivity.
+Qed.
